@@ -134,9 +134,24 @@ func genSchema(r *hx.Rand) *SchemaDesc {
 	}
 	// custom scalar
 	if r.Chance(1, 2) {
-		kinds := []string{"int", "float", "string", "bool", "enum"}
+		// the literal kinds its LiteralCoercion accepts; "list" / "object": a JSON-like scalar whose
+		// literals may hold anything, variables included (F-04g)
+		kinds := []string{"int", "float", "string", "bool", "enum", "list", "object"}
 		hx.Shuffle(r, kinds)
-		d.Types = append(d.Types, TypeDesc{Kind: "scalar", Name: "S0", Accepts: kinds[:r.Range(1, 3)]})
+		acc := kinds[:r.Range(1, 4)]
+		if r.Chance(1, 3) {
+			acc = append([]string{hx.Pick(r, []string{"list", "object"})}, acc...)
+			if acc[1] == acc[0] {
+				acc = acc[1:]
+			}
+			for i := 2; i < len(acc); i++ {
+				if acc[i] == acc[0] {
+					acc = append(acc[:i], acc[i+1:]...)
+					break
+				}
+			}
+		}
+		d.Types = append(d.Types, TypeDesc{Kind: "scalar", Name: "S0", Accepts: acc})
 		g.leafs = append(g.leafs, "S0")
 	}
 	// input objects
